@@ -838,3 +838,14 @@ func simBuildError(txid [stun.TransactionIDSize]byte, code stun.ErrorCode, key s
 
 	return m
 }
+
+// sockByLocalAddr finds the live socket whose candidate has the given transport address.
+func (ag *simAgent) sockByLocalAddr(ap netip.AddrPort) *simSock {
+	for _, s := range ag.socks {
+		if s.cand != nil && s.cand.addrPort() == ap {
+			return s
+		}
+	}
+
+	return nil
+}
